@@ -361,8 +361,11 @@ class Gen:
                     self._emit_item(src, r"^\s*(pub(\([a-z]+\))?\s+)?(const|static)\s+" + re.escape(nm) + r"\b", name, mkpub)
             elif cmd in ("struct", "enum", "trait"):
                 src = Source.get(os.path.join(self.root, toks[0]))
+                mkpub = "pub" in toks[1:]
                 for nm in toks[1:]:
-                    self._emit_item(src, r"^\s*(pub(\([a-z]+\))?\s+)?" + cmd + r"\s+" + re.escape(nm) + r"\b", name)
+                    if nm == "pub":
+                        continue
+                    self._emit_item(src, r"^\s*(pub(\([a-z]+\))?\s+)?" + cmd + r"\s+" + re.escape(nm) + r"\b", name, mkpub)
             elif cmd == "item":
                 src = Source.get(os.path.join(self.root, toks[0]))
                 self._emit_item(src, rx(toks[1]), name)
@@ -404,8 +407,8 @@ class Gen:
         if mkpub:
             # visibility only: a private constant made nameable from pub open spec functions (logged)
             for i, l in enumerate(lines):
-                if re.match(r"\s*(const|static)\s", l):
-                    lines[i] = re.sub(r"^(\s*)(const|static)", r"\1pub \2", l)
+                if re.match(r"\s*(const|static|enum|struct)\s", l):
+                    lines[i] = re.sub(r"^(\s*)(const|static|enum|struct)", r"\1pub \2", l)
                     self.log.append(f"VIS {src.rel}: private item made pub in the generated crate: {l.strip()[:60]}")
                     break
         self.out.emit("\n".join(lines), ("repo", src.rel, line_of(src.text, b)), list(self.tags))
